@@ -2,6 +2,7 @@ package t_codec
 
 import (
 	"bytes"
+	"strings"
 	"fmt"
 	"runtime"
 	"testing"
@@ -246,19 +247,21 @@ func TestC14VRF(t *testing.T) {
 type codecCase struct {
 	name   string
 	enc    func() ([]byte, error)                 // raw CBOR of the generated value
+	dec    func(b []byte) error                   // decode b into a fresh value (nothing else: this is what the allocation bound measures)
 	decEnc func(b []byte) ([]byte, string, error) // decode b into a fresh value, return re-encoding and a field-wise description
 	desc   string                                 // field-wise description of the generated value
 	zstd   func(b []byte) error                   // round trip through encoding.ZSTD / encoding.CBOR starting from the value
 }
 
 func descChain(c *gpbft.ECChain) string {
-	s := fmt.Sprintf("chain[%d]", c.Len())
+	var s strings.Builder
+	fmt.Fprintf(&s, "chain[%d]", c.Len())
 	if c != nil {
 		for _, ts := range c.TipSets {
-			s += fmt.Sprintf("{%d %x %s %x}", ts.Epoch, ts.Key, ts.PowerTable, ts.Commitments)
+			fmt.Fprintf(&s, "{%d %x %s %x}", ts.Epoch, ts.Key, ts.PowerTable, ts.Commitments)
 		}
 	}
-	return s
+	return s.String()
 }
 func descPayload(p *gpbft.Payload) string {
 	return fmt.Sprintf("payload{%d %d %d %x %s %s}", p.Instance, p.Round, p.Phase, p.SupplementalData.Commitments, p.SupplementalData.PowerTable, descChain(p.Value))
@@ -273,18 +276,20 @@ func descMsg(m *gpbft.GMessage) string {
 	return fmt.Sprintf("msg{%d %s %x %x %s}", m.Sender, descPayload(&m.Vote), m.Signature, []byte(m.Ticket), descJust(m.Justification))
 }
 func descEntries(e gpbft.PowerEntries) string {
-	s := fmt.Sprintf("entries[%d]", len(e))
+	var s strings.Builder
+	fmt.Fprintf(&s, "entries[%d]", len(e))
 	for _, x := range e {
-		s += fmt.Sprintf("{%d %s %x}", x.ID, x.Power, []byte(x.PubKey))
+		fmt.Fprintf(&s, "{%d %s %x}", x.ID, x.Power, []byte(x.PubKey))
 	}
-	return s
+	return s.String()
 }
 func descDiff(d certs.PowerTableDiff) string {
-	s := fmt.Sprintf("diff[%d]", len(d))
+	var s strings.Builder
+	fmt.Fprintf(&s, "diff[%d]", len(d))
 	for _, x := range d {
-		s += fmt.Sprintf("{%d %s %x}", x.ParticipantID, x.PowerDelta, []byte(x.SigningKey))
+		fmt.Fprintf(&s, "{%d %s %x}", x.ParticipantID, x.PowerDelta, []byte(x.SigningKey))
 	}
-	return s
+	return s.String()
 }
 func descCert(c *certs.FinalityCertificate) string {
 	return fmt.Sprintf("cert{%d %s %x %s %v %x %s}", c.GPBFTInstance, descChain(c.ECChain), c.SupplementalData.Commitments, c.SupplementalData.PowerTable, vgen.SignerIndices(c.Signers), c.Signature, descDiff(c.PowerTableDelta))
@@ -305,6 +310,10 @@ func mk[T any, PT interface {
 			var b bytes.Buffer
 			err := v.MarshalCBOR(&b)
 			return b.Bytes(), err
+		},
+		dec: func(b []byte) error {
+			var x T
+			return PT(&x).UnmarshalCBOR(bytes.NewReader(b))
 		},
 		decEnc: func(b []byte) ([]byte, string, error) {
 			var x T
@@ -554,14 +563,26 @@ func TestC14Codecs(t *testing.T) {
 			}
 			var rerr error
 			var rre []byte
+			// the allocation bound is about decoding alone (re-encoding and rendering the decoded
+			// value for comparison are the harness's own work)
 			alloc := allocDuring(func() {
 				defer func() {
 					if r := recover(); r != nil {
 						rerr = fmt.Errorf("PANIC: %v", r)
 					}
 				}()
-				rre, _, rerr = c.decEnc(mut)
+				rerr = c.dec(mut)
 			})
+			if rerr == nil {
+				func() {
+					defer func() {
+						if r := recover(); r != nil {
+							rerr = fmt.Errorf("PANIC: %v", r)
+						}
+					}()
+					rre, _, rerr = c.decEnc(mut)
+				}()
+			}
 			if rerr != nil && len(rerr.Error()) > 6 && rerr.Error()[:6] == "PANIC:" {
 				vev.Fail(t, c14, "C14/codec/decode-panic", "%s: decoding mutated input (%s) panicked: %v", c.name, op, rerr)
 			}
